@@ -155,6 +155,23 @@ def catalogue():
     add("LoftedShape(sketches)", "4 vs 2 faces", "out", lambda: cb.LoftedShape(g22(), g21()))
     add("LoftedShape(sketches)", "mid 2 faces", "out", lambda: cb.LoftedShape(g22(), g22().translate([0, 0, 1]), g21()))
     add("LoftedShape(sketches)", "mid 4 faces", "in", lambda: cb.LoftedShape(g22(), g22().translate([0, 0, 1]), g22().translate([0, 0, 0.5])))
+    # a list of middle sketches: every list of <= 3 over {4 faces, 2 faces, 6 faces}; accepted iff all have 4
+    import itertools as _it
+
+    mids = {
+        "4": lambda z: cb.Grid([0, 0, z], [1, 1, z], 2, 2),
+        "2": lambda z: cb.Grid([0, 0, z], [1, 1, z], 2, 1),
+        "6": lambda z: cb.Grid([0, 0, z], [1, 1, z], 3, 2),
+    }
+    for n in (1, 2, 3):
+        for combo in _it.product("426", repeat=n):
+            exp = "in" if set(combo) == {"4"} else "out"
+            add(
+                "LoftedShape(sketches, list of middle sketches)",
+                " ".join(combo) + " faces",
+                exp,
+                lambda combo=combo: cb.LoftedShape(g22(), g22().translate([0, 0, 1]), [mids[c](0.25 * (k + 1)) for k, c in enumerate(combo)]),
+            )
 
     # --- optimizer: clamps and links
     def mesh2():
